@@ -245,6 +245,22 @@ int runTyped()
 #endif
     return vh::bit(ok);
   };
+  // A request no allocator can serve must fail in allocate(); if it "succeeds" (e.g. a truncated
+  // byte count) the vector operation would run off the block, so report it instead of running it.
+  auto absurd = [&](size_t n) -> bool {
+    if ((unsigned __int128)n * sizeof(T) <= (unsigned __int128)KEEP_LIMIT)
+      return false;
+    try {
+      Track t;
+      T *p = alloc.allocate(n);
+      if (p) {
+        alloc.deallocate(p, n);
+        return true;
+      }
+    } catch (const std::exception &) {
+    }
+    return false;
+  };
   // run one mutating vector operation, canonical outcome + alignment of data()
   auto vop = [&](int k, const std::function<void(Vec &)> &f) -> std::string {
     std::string o = "ok";
@@ -378,6 +394,8 @@ int runTyped()
         // ---- AlignedVector<T>
         if (op == "push") { T x = X(2); return vop(VK(1), [&](Vec &v) { v.push_back(x); }); }
         if (op == "pop") return vop(VK(1), [&](Vec &v) { if (!v.empty()) v.pop_back(); });
+        if ((op == "resize" || op == "resize0" || op == "reserve" || op == "assign") && absurd(U(2)))
+          return "huge-request-succeeded";
         if (op == "resize") { size_t n = U(2); T x = X(3); return vop(VK(1), [&](Vec &v) { v.resize(n, x); }); }
         if (op == "resize0") { size_t n = U(2); return vop(VK(1), [&](Vec &v) { v.resize(n); }); }
         if (op == "reserve") { size_t n = U(2); return vop(VK(1), [&](Vec &v) { v.reserve(n); }); }
